@@ -156,6 +156,13 @@ spec fn levels_sum(ls: Seq<Level>) -> G
 {
     if ls.len() == 0 { gzero() } else { gadd(levels_sum(ls.drop_last()), level_sum(ls.last())) }
 }
+spec fn seq_g(s: Seq<Setsum>) -> Seq<G> { Seq::new(s.len(), |i: int| s[i].g()) }
+// every file's setsum, level by level
+spec fn flat(ls: Seq<Level>) -> Seq<G>
+    decreases ls.len()
+{
+    if ls.len() == 0 { Seq::<G>::empty() } else { flat(ls.drop_last()) + mds_g(ls.last().ssts@) }
+}
 // the setsum of a version: the sum over every file of every level
 spec fn tree_sum(v: Version) -> G { levels_sum(v.levels@) }
 
@@ -294,6 +301,55 @@ impl Version {
 //@ >>
 //@ bodystart <<
         proof { assert(self.levels@.take(0) =~= Seq::<Level>::empty()); }
+//@ >>
+//@ end
+
+    // Version::setsums (what explicit_ref / explicit_unref count references by, unit lsmtk_orphans): the setsum of every file
+    // of every level, in order, each once per occurrence -- nothing skipped, nothing invented
+//@ extract lsmtk/src/tree/mod.rs | impl Version :: fn setsums
+//@ ret r
+//@ rewrite X13 `for level in self.levels.iter() {` => `for li in 0..self.levels.len() { let level = &self.levels[li];`
+//@ rewrite X13 `for md in level.ssts.iter() {` => `for fi in 0..level.ssts.len() { let md = &level.ssts[fi];`
+//@ rewrite-re? X4 `let mut setsums = vec!\[\];` => `let mut setsums: Vec<Setsum> = Vec::new();`
+//@ post <<
+        seq_g(r@) == flat(self.levels@),
+//@ >>
+//@ bodystart <<
+        proof { assert(self.levels@.take(0) =~= Seq::<Level>::empty()); assert(seq_g(Seq::<Setsum>::empty()) =~= Seq::<G>::empty()); }
+//@ >>
+//@ loop `for li in` <<
+            invariant seq_g(setsums@) == flat(self.levels@.take(li as int)), /* contract-inv */
+//@ >>
+//@ loop `for fi in` <<
+                invariant 0 <= li < self.levels@.len(), *level == self.levels@[li as int],
+                    seq_g(setsums@) == flat(self.levels@.take(li as int)) + mds_g(level.ssts@).take(fi as int), /* contract-inv */
+//@ >>
+//@ before `for fi in` <<
+            proof { assert(flat(self.levels@.take(li as int)) + mds_g(level.ssts@).take(0) =~= flat(self.levels@.take(li as int))); }
+//@ >>
+//@ startloop `for fi in` <<
+                let ghost s0 = setsums@;
+//@ >>
+//@ endloop `for fi in` <<
+                proof {
+                    let m = mds_g(level.ssts@);
+                    if setsums@.len() == s0.len() + 1 && setsums@.drop_last() =~= s0 && setsums@.last().g() == m[fi as int] {
+                        assert(seq_g(setsums@) =~= seq_g(s0).push(m[fi as int]));
+                        assert(m.take(fi as int + 1) =~= m.take(fi as int).push(m[fi as int]));
+                        assert(flat(self.levels@.take(li as int)) + m.take(fi as int + 1) =~= (flat(self.levels@.take(li as int)) + m.take(fi as int)).push(m[fi as int]));
+                    }
+                }
+//@ >>
+//@ afterloop `for fi in` <<
+            proof {
+                let m = mds_g(level.ssts@);
+                assert(m.take(m.len() as int) =~= m);
+                assert(self.levels@.take(li as int + 1).drop_last() =~= self.levels@.take(li as int));
+                assert(self.levels@.take(li as int + 1).last() == self.levels@[li as int]);
+            }
+//@ >>
+//@ afterloop `for li in` <<
+        proof { assert(self.levels@.take(self.levels@.len() as int) =~= self.levels@); }
 //@ >>
 //@ end
 
@@ -1174,6 +1230,6 @@ fn moving_compaction_core(tree: &LsmTree, version: &Version, compaction: Compact
 //@ >>
 //@ end
 
-//@ min-verified 25
+//@ min-verified 26
 } // verus!
 fn main() {}
